@@ -532,16 +532,23 @@ func (g *Gen) node(sc *scope, depth int) *TNode {
 		g.use("tag:assign")
 		g.nvar++
 		v := fmt.Sprintf("a%d", g.nvar)
-		if g.r.Chance(0.15) {
+		// Inside a loop an assigned name neither shadows a binding nor enters the
+		// scope: otherwise two assignments can feed each other and grow a value
+		// exponentially with the iteration count (2^216 elements were generated once).
+		if g.loop == 0 && g.r.Chance(0.15) {
 			v = pick(g.r, []string{"s", "n", "arr", "m"}) // shadow a binding
 		}
 		var n *TNode
 		if g.r.Chance(0.3) {
 			n = &TNode{K: "tag", S: "assign " + v + " = " + g.arrayExpr(*sc)}
-			sc.arrs = append(sc.arrs, v)
+			if g.loop == 0 {
+				sc.arrs = append(sc.arrs, v)
+			}
 		} else {
 			n = &TNode{K: "tag", S: "assign " + v + " = " + g.scalarExpr(*sc)}
-			sc.anys = append(sc.anys, v)
+			if g.loop == 0 {
+				sc.anys = append(sc.anys, v)
+			}
 		}
 		return g.trim(n)
 	case 8:
@@ -549,7 +556,9 @@ func (g *Gen) node(sc *scope, depth int) *TNode {
 		g.nvar++
 		v := fmt.Sprintf("c%d", g.nvar)
 		n := g.trim(&TNode{K: "block", S: "capture " + v, C: g.Nodes(*sc, depth+1, 3)})
-		sc.strs = append(sc.strs, v)
+		if g.loop == 0 {
+			sc.strs = append(sc.strs, v)
+		}
 		return n
 	case 9:
 		g.use("tag:cycle")
